@@ -280,6 +280,59 @@ def default_limit_case(rng, which):
     return ops
 
 
+def exhaustive_interleavings(limit, rng):
+    """small scope, exhaustive: every interleaving of two 3-packet connections that share hosts / ports in every way,
+    x attach on/off x short/long time gaps"""
+    import itertools
+    A = ("v4", "0a000001", 1234, "0a000002", 80)
+    Bs = [("v4", "0a000001", 1235, "0a000002", 80),     # differs in one port
+          ("v4", "0a000002", 1234, "0a000001", 80),     # same ports on swapped hosts
+          ("v4", "0a000001", 80, "0a000002", 1234),     # swapped ports
+          ("v4", "0a000001", 1234, "0a000001", 80),     # both ends on one host
+          ("v6", "00000000000000000000ffff0a000001", 1234, "00000000000000000000ffff0a000002", 80),   # v4-mapped bytes
+          ("v6", "0a000001000000000000000000000001", 1234, "0a000002000000000000000000000001", 80)]   # near a.b.c.d::
+    def scripts(c, isn_c, isn_s, dc, ds):
+        fam, ca, cp, sa, sp = c
+        cs = f"{fam} {ca} {cp} {sa} {sp}"; sc = f"{fam} {sa} {sp} {ca} {cp}"
+        return {
+            "syn-data-fin": [f"{cs} {SYN} {isn_c} 0 none", f"{cs} {PSH|ACK} {(isn_c+1)%M32} {(isn_s+1)%M32} {hexs(dc)}",
+                             f"{cs} {FIN|ACK} {(isn_c+1+len(dc))%M32} {(isn_s+1)%M32} none"],
+            "syn-synack-rst": [f"{cs} {SYN} {isn_c} 0 none", f"{sc} {SYN|ACK} {isn_s} {(isn_c+1)%M32} none",
+                               f"{sc} {RST} {(isn_s+1)%M32} 0 none"],
+            "data-data-fin": [f"{cs} {PSH|ACK} {(isn_c+1)%M32} {(isn_s+1)%M32} {hexs(dc)}",
+                              f"{sc} {PSH|ACK} {(isn_s+1)%M32} {(isn_c+1+len(dc))%M32} {hexs(ds)}",
+                              f"{sc} {FIN|ACK} {(isn_s+1+len(ds))%M32} {(isn_c+1+len(dc))%M32} none"],
+            "fin-fin-ack": [f"{cs} {SYN} {isn_c} 0 none", f"{cs} {FIN|ACK} {(isn_c+1)%M32} {(isn_s+1)%M32} none",
+                            f"{sc} {FIN|ACK} {(isn_s+1)%M32} {(isn_c+2)%M32} none"],
+        }
+    def decls(c, isn_c, isn_s, dc, ds):
+        fam, ca, cp, sa, sp = c
+        return [f"decl {fam} {ca} {cp} {sa} {sp} {isn_c} {hexs(dc)}", f"decl {fam} {sa} {sp} {ca} {cp} {isn_s} {hexs(ds)}"]
+    out = []
+    sa = scripts(A, 4294967294, 7, b"\x01\x02\x03", b"\x0a\x0b")
+    for B in Bs:
+        sb = scripts(B, 100, 4294967295, b"\x21\x22", b"\x31")
+        for na, nb in itertools.product(sa, sb):
+            for pos in itertools.combinations(range(6), 3):
+                for attach in (0, 1):
+                    for gaps in ("short", "long"):
+                        ops = [f"case attach={attach} maxc=512 maxb=3145728 ka=1000 acl=1 ooo=1"]
+                        ops += decls(A, 4294967294, 7, b"\x01\x02\x03", b"\x0a\x0b") + decls(B, 100, 4294967295, b"\x21\x22", b"\x31")
+                        ia = ib = 0; t = 10
+                        for i in range(6):
+                            t += 1 if gaps == "short" or i != 3 else 1500
+                            if i in pos:
+                                ops.append(f"pkt {t} " + sa[na][ia]); ia += 1
+                            else:
+                                ops.append(f"pkt {t} " + sb[nb][ib]); ib += 1
+                        ops.append(f"find {A[0]} {A[1]} {A[2]} {A[3]} {A[4]}")
+                        ops.append(f"find {B[0]} {B[1]} {B[2]} {B[3]} {B[4]}")
+                        out.append(ops)
+    if len(out) > limit:
+        out = rng.sample(out, limit)
+    return [l for c in out for l in c]
+
+
 def classify(op, impl):
     w = op.split(" ")
     if w[0] != "pkt":
@@ -352,6 +405,8 @@ def run(chk):
         for i in range(1200 if quick else 2500):
             ops += gen_case(rng, big=(i % 40 == 0))
         batch(f"main{r}", ops)
+    # 1b. small-scope exhaustive: all interleavings of two 3-packet connections
+    batch("exhaustive", exhaustive_interleavings(150 if quick else 10 ** 9, rng))
     # 2. the default limits (512 chunks / 3 MiB)
     ops = []
     for i in range(1 if quick else 6):
@@ -381,6 +436,23 @@ def run(chk):
                     "limits max_buffered_chunks_/max_buffered_bytes_) + generators in checks/C07.py",
                     "g++ 12 / ASan+UBSan build of the repo's working tree"]
     chk.extra["batches"] = {k: dict(v) for k, v in stats.items()}
+    # how much of the workload the oracle actually judges (sample)
+    sample = []
+    for i in range(150):
+        sample += gen_case(random.Random(chk.seed * 1000 + i))
+    si, _, ss, _ = corr.evaluate(AREA, exe, sample, CASE_START, model=False)
+    verd = {}
+    for l in ss:
+        k = " ".join(l.split(" ")[:2]) if l.startswith("violates") else l
+        verd[k] = verd.get(k, 0) + 1
+    chk.extra["oracle_verdicts_sample"] = verd
+    chk.extra["modelled_not_proved"] = [
+        "per-flow reassembly exactness (delivered bytes = stream prefix up to the frontier) is C06's theorem about the imported "
+        "DataTracker model; here it is checked by the oracle's deliver clause and by correspondence only",
+        "per-flow state as a fold of Flow::process_packet over the sub-history routed to it (route_correct is the one-step form)",
+        "ACK tracker / SACKED_SEGMENTS limit, recovery mode, ignore_*_data, callback_not_set path: outside the model",
+        "trace_refines_reference_partial assumes no identifier collision among all packets of the capture (not only live ones)",
+    ]
     corr.finalize_cov(chk)
 
 
